@@ -162,7 +162,9 @@ def unlimited_case(draw):
         cnt = 1 if form == "scalar" else 2
         appends.append({"form": form, "at": n, "count": cnt})
         n += cnt
-    return {"mode": "unlimited", "lon": lon, "twod": twod, "kind": kind, "n0": n0, "labels": pool[:n], "appends": appends, "second": draw(st.booleans()),
+    late = draw(st.booleans())
+    return {"mode": "unlimited", "lon": lon, "twod": twod, "kind": kind, "n0": n0, "labels": pool[:n + (1 if late else 0)], "appends": appends, "second": draw(st.booleans()) and not late,
+            "late_label": late,
             "order": draw(st.sampled_from(["time-first", "lon-first"]))}
 
 
@@ -559,6 +561,20 @@ def run_unlimited(case, tmp):
                 check(core.same_labels(gw.axes["time"].values, exp_time), "unlimited-axis-labels", {"what": what + " [second variable]", "got": core.jsonable(gw.axes["time"].values)}, sig)
                 check(gw.values.shape == ew.shape and all(core.same_scalar(x, y) for x, y in zip(gw.values.tolist(), ew.tolist())), "unlimited-second-variable",
                       {"what": what, "got": core.jsonable(gw.values), "expected": core.jsonable(ew)}, sig)
+        if case.get("late_label") and len(labs) > len(exp_time):
+            # a row appended as a plain ndarray (no label supplied), then assigned again - now inside the extent - as a DimArray that carries its label
+            at = len(exp_time)
+            lab = labs[at]
+            b = block([lab], 900)
+            lib(lambda: h["v"].ix.__setitem__(at, b.values[0]), what="append a plain ndarray row at %d" % at, sig=sig)
+            what = "h['v'].ix[%d] = DimArray labelled %r (position already inside the unlimited dimension)" % (at, lab)
+            lib(lambda: h["v"].ix.__setitem__(at, b), what=what, sig=sig)
+            exp_vals = np.concatenate([exp_vals, b.values], axis=0)
+            exp_time += [lab]
+            got = lib(lambda: h["v"].read(), what=what + " [read back]", sig=sig)
+            check(core.same_labels(got.axes["time"].values, exp_time), "unlimited-axis-labels", {"what": what, "got": core.jsonable(got.axes["time"].values), "expected": exp_time}, sig)
+            check(got.values.shape == exp_vals.shape and np.array_equal(got.values, exp_vals), "unlimited-values", {"what": what, "got": core.jsonable(got.values), "expected": core.jsonable(exp_vals)}, sig)
+            cl.add("unlimited:label-after-ndarray-append")
         h.close()
         h = None
         r = da.read_nc(path, "v")
